@@ -19,6 +19,7 @@ func propC19(r *Report, tier string) {
 	ruleLastElementGuarded(r, "K5-last-element-guarded")
 	ruleNilSlotsNotDereferenced(r, "K6-nil-slots-not-dereferenced", "search/highlight")
 	ruleFoldBufferCoversWorstCase(r, "K11-fold-buffer-worst-case")
+	ruleTokenOffsetsAreByteOffsets(r, "K11-token-offsets-are-bytes")
 	ruleIndexMinusOneGuarded(r, "K5-index-minus-one-guarded", func(rel string) bool {
 		return strings.HasPrefix(rel, "analysis/") || strings.HasPrefix(rel, "search/highlight")
 	})
